@@ -4,7 +4,8 @@
 (* privileged contract state), and checks conformance with Auth's actions.                                   *)
 EXTENDS Integers, Sequences, FiniteSets, TLC, Json, IOUtils
 Trace == ndJsonDeserialize(IOEnv.TRACE_FILE)
-VARIABLES l, reg, ver, upd, rcpt, ackrel, sent, acked, paid, priv, last,
+VARIABLES l, reg, ver, upd, rcpt, ackrel, sent, acked, paid, priv, tssacct, last,
+          gTss,     \* ground truth: the account governance configured as TSS account (creation: "tss"; then every accepted Rotate)
           feebal,   \* fee-token balance per account
           privfp,   \* fingerprint of the privileged contract state
           dg        \* digest of the evm, xibc and aggregate stores
@@ -23,7 +24,7 @@ SeqSet(s) == {s[i] : i \in DOMAIN s}
 RegOf(k) == [a \in Accts |-> {x.c : x \in SeqSet(ln(k).st.reg[a])}]
 AddrOK(k) == \A a \in Accts : \A x \in SeqSet(ln(k).st.reg[a]) : x.a = Counter(a, x.c, ver'[a])
 TInit == /\ l = 0 /\ reg = [a \in Accts |-> {}] /\ ver = [a \in Accts |-> 1] /\ upd = [c \in Chains |-> 0] /\ rcpt = {} /\ ackrel = <<>> /\ sent = 0 /\ acked = {}
-         /\ paid = <<>> /\ priv = 0 /\ last = [act |-> "None", res |-> "ok"] /\ feebal = [a \in Accts |-> 0] /\ privfp = "" /\ dg = ""
+         /\ paid = <<>> /\ priv = 0 /\ tssacct = "tss" /\ gTss = "tss" /\ last = [act |-> "None", res |-> "ok"] /\ feebal = [a \in Accts |-> 0] /\ privfp = "" /\ dg = ""
 Report(k, name, holds) == holds \/ PrintT(<<"VIOL", k, name>>)
 IsStep(k) == ln(k).ev # "Init"
 A(k) == ln(k).args
@@ -32,6 +33,11 @@ Gainers == {a \in Accts : feebal'[a] > feebal[a]}
 Judge(k) ==
   IsStep(k) =>
   LET ev == ln(k).ev IN
+  (* a restart from the chain's own exported genesis keeps the replay guards and everything else of the bridge (chain names of every *)
+  (* admissible shape: the TSS counterparty's name contains . _ + - # [ ] < >)                                                      *)
+  /\ Report(k, "C01.RestartKeepsReceipts", ev = "Regenesis" => (OK(k) /\ rcpt' = rcpt /\ ackrel' = ackrel))
+  /\ Report(k, "C06.RestartKeepsRegistry", ev = "Regenesis" => (reg' = reg /\ ver' = ver /\ upd' = upd /\ tssacct' = tssacct))
+  /\ Report(k, "C04.RestartKeepsSequences", ev = "Regenesis" => (ln(k).st.sent = sent /\ acked' = acked))
   (* C04 for a destination behind a TSS client: a successful send takes the next sequence and leaves its commitment, *)
   (* the hash of the emitted packet bytes - whatever the type of the destination's client                            *)
   /\ Report(k, "C04.TssSendCommits", (ev = "Send" /\ OK(k)) => (ln(k).st.sent = sent + 1 /\ (sent + 1) \in SeqSet(ln(k).st.commits)))
@@ -39,7 +45,9 @@ Judge(k) ==
   (* updates and receives only from an account registered for exactly that chain (registry before the step) *)
   /\ Report(k, "C06.OnlyRegistered", (ev \in {"Update", "Recv"} /\ OK(k)) => A(k).chain \in reg[A(k).signer])
   (* a TSS-secured counterparty: only the TSS account, for updates, receives and acknowledgements *)
-  /\ Report(k, "C06.TssOnly", (OK(k) /\ ((ev \in {"Update", "Recv"} /\ A(k).chain = "tss") \/ ev = "Ack")) => A(k).signer = "tss")
+  /\ Report(k, "C06.TssOnly", (OK(k) /\ ((ev \in {"Update", "Recv"} /\ A(k).chain = "tss") \/ ev = "Ack")) => A(k).signer = gTss)
+  (* ... and after governance moved the client to another account, it is that account the client holds *)
+  /\ Report(k, "C06.RotateInstalls", (ev = "Rotate" /\ OK(k)) => tssacct' = A(k).to)
   (* an accepted message for one chain changes nothing of another chain's client or receipts *)
   /\ Report(k, "C06.NothingForOtherChains", (ev \in {"Update", "Recv"}) =>
         \A c \in Chains \ {A(k).chain} : upd'[c] = upd[c] /\ {x \in rcpt' : x[1] = c} = {x \in rcpt : x[1] = c})
@@ -74,6 +82,8 @@ C_Step(k) ==
                      /\ acked' = (IF AckOK(A(k).signer, A(k).seq, A(k).rel) THEN acked \cup {A(k).seq} ELSE acked)
                      /\ UNCHANGED <<reg, ver, upd, rcpt, ackrel, sent>>
     [] ev = "Priv" -> UNCHANGED <<reg, ver, upd, rcpt, ackrel, sent, acked>>
+    [] ev = "Regenesis" -> OK(k) /\ UNCHANGED <<reg, ver, upd, rcpt, ackrel, sent, acked, tssacct>>
+    [] ev = "Rotate" -> OK(k) /\ tssacct' = A(k).to /\ UNCHANGED <<reg, ver, upd, rcpt, ackrel, sent, acked>>
     [] OTHER -> FALSE
 Conform(k) == IsStep(k) => (C_Step(k) \/ PrintT(<<"DRIFT", k, ln(k).ev>>))
 AckMap(k) == LET S == SeqSet(ln(k).st.acks) IN [x \in {<<e.c, e.s>> : e \in S} |-> (CHOOSE e \in S : e.c = x[1] /\ e.s = x[2]).rel]
@@ -87,9 +97,11 @@ TNext == LET k == l + 1 IN
   /\ sent' = ln(k).st.sent
   /\ acked' = {s \in 1..ln(k).st.sent : s \notin SeqSet(ln(k).st.commits)}
   /\ paid' = paid /\ priv' = 0
+  /\ tssacct' = ln(k).st.tssacct        \* the account whose address the stored TSS client state names
+  /\ gTss' = IF ln(k).ev = "Init" THEN "tss" ELSE IF ln(k).ev = "Rotate" /\ ln(k).res = "ok" THEN ln(k).args.to ELSE gTss
   /\ feebal' = [a \in Accts |-> ln(k).st.fee[a]]
   /\ privfp' = ln(k).st.privfp /\ dg' = ln(k).dg
   /\ last' = [act |-> ln(k).ev, res |-> ln(k).res]
   /\ Judge(k) /\ Conform(k)
-TSpec == TInit /\ [][TNext]_<<l, reg, ver, upd, rcpt, ackrel, sent, acked, paid, priv, last, feebal, privfp, dg>>
+TSpec == TInit /\ [][TNext]_<<l, reg, ver, upd, rcpt, ackrel, sent, acked, paid, priv, tssacct, gTss, last, feebal, privfp, dg>>
 =============================================================================
